@@ -78,6 +78,37 @@ pub fn configs(prop: &str, thorough: bool) -> Vec<(Cfg, Option<usize>)> {
                 c.inst_must_fail = true;
                 out.push((c, Some(0)));
             }
+            // one account named twice in two spellings (bech32 is case-insensitive as a whole): accepted only
+            // if it ends up as one account whose balance the supply counts once
+            for (n, init) in [
+                ("A,^A", vec![(0u8, 2u128), (2, 1)]),
+                ("A,B,^A-zero", vec![(0, 2), (1, 1), (2, 0)]),
+            ] {
+                let mut c = Cfg::base(&format!("C01/instantiate/case-variant/{n}"));
+                c.actors = vec!["A", "B", "^A"];
+                c.props = p.clone();
+                c.initial = init;
+                out.push((c, Some(0)));
+            }
+            // the token contract's own address as recipient, owner and burner
+            {
+                let mut c = Cfg::base("C01/closed/token-itself-as-recipient");
+                c.actors = vec!["A", "B", "token"];
+                c.props = p.clone();
+                c.initial = vec![(0, 2), (2, 1)];
+                c.mint = Some((1, Some(4)));
+                c.senders = vec![0, 2];
+                c.recipients = vec![1, 2];
+                c.owners = vec![0];
+                c.spenders = vec![1];
+                c.minters = vec![1];
+                c.mint_to = vec![2];
+                c.amounts = vec![0, 1, 2];
+                c.mint_amounts = vec![1];
+                c.grant_cap = Some(2);
+                c.kinds = kinds(&["Transfer", "Send", "Burn", "Mint", "Inc", "TransferFrom", "SendFrom", "BurnFrom"]);
+                out.push((c, None));
+            }
             // many accounts carried through an upgrade from every pre-0.14 layout (batch boundaries at 10, 30)
             {
                 let names: Vec<&'static str> = vec![
@@ -269,6 +300,26 @@ pub fn configs(prop: &str, thorough: bool) -> Vec<(Cfg, Option<usize>)> {
                 let depth = if n == "capmax" { Some(if thorough { 5 } else { 3 }) } else { None };
                 out.push((c, if must_fail { Some(0) } else { depth }));
             }
+            // a capped token with more holders than one page (30) carried through an upgrade from every old
+            // layout: supply, cap and the room left under the cap must survive
+            {
+                let names: Vec<&'static str> = vec![
+                    "M1", "X", "U02", "U03", "U04", "U05", "U06", "U07", "U08", "U09", "U10", "U11", "U12", "U13", "U14", "U15", "U16",
+                    "U17", "U18", "U19", "U20", "U21", "U22", "U23", "U24", "U25", "U26", "U27", "U28", "U29", "U30", "U31", "U32",
+                ];
+                let mut c = Cfg::base("C13/upgrade/33-holders-capped");
+                c.props = p.clone();
+                c.actors = names;
+                c.initial = (0..33u8).map(|i| (i, 1 + (i as u128 % 2))).collect();
+                let total: u128 = c.initial.iter().map(|x| x.1).sum();
+                c.mint = Some((0, Some(total + 1)));
+                c.minters = vec![0, 1];
+                c.mint_to = vec![1];
+                c.mint_amounts = vec![1, 2];
+                c.kinds = kinds(&["Mint"]);
+                c.migrate_probe = true;
+                out.push((c, Some(3)));
+            }
         }
         "C19" => {
             let p = Props { c19: true, ..Default::default() };
@@ -332,6 +383,57 @@ pub fn configs(prop: &str, thorough: bool) -> Vec<(Cfg, Option<usize>)> {
                 c.kinds = kinds(&["TransferFrom"]);
                 c.migrate_probe = true;
                 out.push((c, Some(2)));
+            }
+            {
+                // one owner with more allowance rows than the largest page (30), migrated from every old layout
+                let names: Vec<&'static str> = vec![
+                    "O0", "O1", "P00", "P01", "P02", "P03", "P04", "P05", "P06", "P07", "P08", "P09", "P10", "P11", "P12", "P13", "P14", "P15",
+                    "P16", "P17", "P18", "P19", "P20", "P21", "P22", "P23", "P24", "P25", "P26", "P27", "P28", "P29", "P30", "P31", "P32",
+                ];
+                let mut c = Cfg::base("C19/upgrade/one-owner-33-spenders");
+                c.actors = names;
+                c.props = p.clone();
+                c.initial = vec![(0, 2), (1, 2)];
+                c.pre_allow = (2..35u8).map(|sp| (0u8, sp, 1 + (sp as u128 % 2))).chain([(1u8, 2u8, 1u128)]).collect();
+                c.owners = vec![0];
+                c.spenders = vec![34];
+                c.recipients = vec![1];
+                c.amounts = vec![1];
+                c.exps = vec![ExpA::Unset];
+                c.grant_cap = Some(4);
+                c.kinds = kinds(&["TransferFrom"]);
+                c.migrate_probe = true;
+                out.push((c, Some(2)));
+            }
+            {
+                // entry points that are not about allowances (burning or sending away the whole balance, mints,
+                // minter changes) must leave all three views alone and in agreement
+                let mut c = Cfg::base("C19/closed/other-entry-points");
+                c.actors = vec!["A", "B", "S1", "token"];
+                c.props = p.clone();
+                c.initial = vec![(0, 2), (1, 1)];
+                c.mint = Some((1, Some(4)));
+                c.senders = vec![0, 1];
+                c.recipients = vec![1, 2, 3];
+                c.owners = vec![0, 1];
+                c.spenders = vec![2, 0];
+                c.minters = vec![1, 2];
+                c.mint_to = vec![0];
+                c.amounts = vec![1, 2];
+                c.mint_amounts = vec![1];
+                c.exps = vec![ExpA::Unset, ExpA::H(H0 + 1)];
+                c.grant_cap = Some(2);
+                c.hmax = H0 + 1;
+                c.kinds = kinds(&["Inc", "Transfer", "Send", "Burn", "Mint", "UpdateMinter", "TransferFrom", "BurnFrom"]);
+                if !thorough {
+                    c.senders = vec![0];
+                    c.recipients = vec![1, 3];
+                    c.owners = vec![0];
+                    c.spenders = vec![2];
+                    c.minters = vec![1];
+                    c.kinds = kinds(&["Inc", "Transfer", "Send", "Burn", "Mint", "TransferFrom", "BurnFrom"]);
+                }
+                out.push((c, None));
             }
             if thorough {
                 let mut c = Cfg::base("C19/closed/4-actors-all-pairs");
